@@ -486,6 +486,24 @@ def execute(case):
         raise
       except Exception as e:   # pylint: disable=broad-except
         exc = e
+    # a rejected single write is rejected again when the very same call is repeated (with the same value object)
+    if exc is not None and isinstance(exc, REJECT) and single is False and call is not None:
+      try:
+        with pg.notify_on_change(not op.get('nf')):
+          if ap is None:
+            call()
+          else:
+            with pg.allow_partial(ap):
+              call()
+        retry_exc = None
+      except RecursionError:
+        raise
+      except Exception as e2:   # pylint: disable=broad-except
+        retry_exc = e2
+      if retry_exc is None:
+        return res.violate('invalid value %s was rejected with %r, and accepted when the same call was repeated (state now %s) | spec=%r op=%r' % (
+            _r(v), exc, _r(root), specs.spec_at(desc, n.sym_path.keys), {kk: vv for kk, vv in op.items() if vv not in (None, False)}),
+                           op=name, rule='accepted-on-retry', kind=nd['t'])
     res.label('op:' + name, 'raised:' + type(exc).__name__ if exc else 'returned')
     after = _json(root)
     sigx = {'kind': nd['t']}
